@@ -152,7 +152,7 @@ func (r *Round) AddBlockToVerify(b *block.Block) {
 	select {
 	case <-timeout.Done():
 		logging.Logger.Debug("Can't add block to verify channel, context is shut")
-	case r.blocksToVerifyChannel <- b:
+	case r.GetBlocksToVerifyChannel() <- b:
 	default:
 	}
 }
@@ -190,6 +190,9 @@ func (r *Round) IsTicketCollected(ticket *block.VerificationTicket) (exist bool)
 
 /*GetBlocksToVerifyChannel - a channel where all the blocks requiring verification are put into */
 func (r *Round) GetBlocksToVerifyChannel() chan *block.Block {
+	// CancelVerification and Restart replace the channel under cancelGuard
+	r.cancelGuard.RLock()
+	defer r.cancelGuard.RUnlock()
 	return r.blocksToVerifyChannel
 }
 
@@ -255,9 +258,12 @@ func (r *Round) Restart() error {
 
 	r.roundGuard.Lock()
 	r.vrfSharesCache = newVRFSharesCache()
-	r.blocksToVerifyChannel = make(chan *block.Block, cap(r.blocksToVerifyChannel))
 	r.verificationTickets = make(map[string]*block.BlockVerificationTicket)
 	r.roundGuard.Unlock()
+
+	r.cancelGuard.Lock()
+	r.blocksToVerifyChannel = make(chan *block.Block, cap(r.blocksToVerifyChannel))
+	r.cancelGuard.Unlock()
 	return nil
 }
 
